@@ -1495,7 +1495,7 @@ class VerificationServiceClass(ServiceClass):
                             f"bound to 'evt.EVT_C_ECHO' contained an "
                             f"unsupported Element '{elem.keyword}'"
                         )
-            elif isinstance(status, int):
+            elif isinstance(status, int) and 0x0000 <= status <= 0xFFFF:
                 rsp.Status = status
             else:
                 raise TypeError(
